@@ -190,9 +190,9 @@ def grammar_variants(run, name, h, bname, ref, pw, ctx, st, rng):
         check_string(run, name, h, explicit, pw, ctx, "explicit-5000-rounds", None)
     # config-only forms of the modular-crypt formats: the string without its checksum
     if bname in ("md5_crypt", "apr_md5_crypt", "sha256_crypt", "sha512_crypt", "sha1_crypt", "bcrypt", "phpass", "bsdi_crypt", "des_crypt",
-                 "pbkdf2_sha1", "pbkdf2_sha256", "pbkdf2_sha512", "sun_md5_crypt", "scram", "scrypt") and not hasattr(h, "wrapped"):
+                 "pbkdf2_sha1", "pbkdf2_sha256", "pbkdf2_sha512", "sun_md5_crypt", "scrypt") and not hasattr(h, "wrapped"):
         if bname == "bcrypt":
-            cfgs = [ref[:29]]
+            cfgs = [ref[:-31]]
         elif bname == "phpass":
             cfgs = [ref[:12]]
         elif bname == "bsdi_crypt":
@@ -208,8 +208,11 @@ def grammar_variants(run, name, h, bname, ref, pw, ctx, st, rng):
         for cfg in cfgs:
             try:
                 obj = h.from_string(cfg)
-            except ValueError:
-                run.count(f"config-form-not-accepted:{bname}")
+            except ValueError as e:
+                # these formats document (and on the pinned tree accept) their checksum-less configuration strings
+                run.violation(f"C07|{name}|config-form-rejected", f"{name}: the config-only string {cfg!r} (hash without its checksum) is rejected: {str(e)[:80]}",
+                              dict(format=name, origin="config-only", string=cfg, full_hash=ref),
+                              repro=f"import passlib.hash as H\nprint(H.{name}.from_string({cfg!r}).to_string())")
                 continue
             try:
                 back = obj.to_string()
@@ -242,6 +245,28 @@ def grammar_variants(run, name, h, bname, ref, pw, ctx, st, rng):
                     run.violation(f"C07|{name}|config-form-genhash|{type(e).__name__}", f"{name}: genhash with config-only string raised {e}", w)
             run.case((name, "config-only", st.get("rounds"), cfg.endswith("$")), w)
             run.count("origin:config-only")
+    # sun_md5_crypt: the bare-salt spelling ("$md5[,rounds=N]$salt" without the trailing "$") is a different configuration that
+    # can only be entered as a string; reference = OS crypt() on that configuration string
+    if bname == "sun_md5_crypt" and st.get("salt"):
+        r = st.get("rounds", 0)
+        bare_cfg = ("$md5,rounds=%d$%s" % (r, st["salt"])) if r else "$md5$" + st["salt"]
+        try:
+            bare_ref = F.os_crypt(pw.encode(), bare_cfg)
+        except F.NotCovered:
+            bare_ref = None
+        if bare_ref and bare_ref.startswith(bare_cfg + "$") and not bare_ref.startswith(bare_cfg + "$$"):
+            check_string(run, name, h, bare_ref, pw, ctx, "bare-salt", None)
+            try:
+                obj = h.from_string(bare_cfg)
+                back, full = obj.to_string(), h.genhash(pw, bare_cfg)
+                if back != bare_cfg or full != bare_ref or obj.salt != st["salt"] or obj.rounds != r:
+                    run.violation(f"C07|{name}|bare-salt-config", f"{name}: bare-salt config {bare_cfg!r}: re-rendered {back!r}, salt {obj.salt!r}, rounds {obj.rounds}, genhash {full!r} (OS crypt: {bare_ref!r})",
+                                  dict(format=name, string=bare_cfg, reference=bare_ref))
+            except Exception as e:
+                run.violation(f"C07|{name}|bare-salt-config|{type(e).__name__}", f"{name}: bare-salt config {bare_cfg!r} (accepted by OS crypt) raises {type(e).__name__}: {str(e)[:80]}",
+                              dict(format=name, string=bare_cfg, reference=bare_ref), repro=f"import passlib.hash as H\nprint(H.{name}.from_string({bare_cfg!r}).to_string())")
+            run.case((name, "bare-salt-config", r > 0), dict(format=name, string=bare_cfg, reference=bare_ref))
+            run.count("origin:bare-salt")
     # bcrypt: unused padding bits of the last salt character are repaired
     if bname == "bcrypt" and not hasattr(h, "wrapped") and ref[:4] in ("$2a$", "$2b$", "$2y$"):
         salt = ref[7:29]
@@ -352,7 +377,7 @@ def body(run):
     for n in names:
         if H.usable(n) and n not in H.DISABLED:
             run.require(f"rt:{n}", 2)
-    for o in ("produced", "implicit-rounds", "config-only", "hex-uppercase", "hex-lowercase", "padding-bits-set"):
+    for o in ("produced", "implicit-rounds", "config-only", "hex-uppercase", "hex-lowercase", "padding-bits-set", "bare-salt"):
         run.require(f"origin:{o}", 3)
     run.require("libpass_inspect", 50)
     run.assumptions += ["documented canonical forms: hex case (lower for " + ", ".join(LOWER_HEX[:6]) + " ...; upper for " + ", ".join(UPPER_HEX) + "), bcrypt padding-bit repair",
